@@ -226,7 +226,19 @@ def check_result(name, res_ids, raw, k, ffo, depth, n, wv):
 
 
 def evaluate(d):
-    pop = build(d)
+    if d.get("pre"):
+        # HISTORY on the same objects: the individuals are first evaluated to other values and sorted by both
+        # procedures, then RE-EVALUATED IN PLACE (`ind.fitness.values = new`, no `del` in between) and sorted again.
+        # Nothing a fitness object remembers besides its weighted values may survive the assignment (seeded change
+        # C04-r7m1 caches the weighted sum and resets it only in the deleter).
+        pop = build(dict(d, pop=d["pre"]))
+        emo.sortNondominated(pop, len(pop))
+        if len(d["w"]) >= 2 and pop:
+            emo.sortLogNondominated(pop, len(pop))
+        for ind, vals in zip(pop, d["pop"]):
+            ind.fitness.values = tuple(float(Fr(v)) for v in vals)
+    else:
+        pop = build(d)
     n = len(pop)
     m = len(d["w"])
     index_of = dict((id(o), i) for i, o in enumerate(pop))
@@ -559,7 +571,22 @@ def family_cases(tier, rng, mult):
         yield dict(case(w, pop, sorted(set([0, 1, n // 2, n, n + 1])), "family/m=%d<-%d" % (m, mp)), parent=par)
 
 
+def reeval_cases(tier, rng, mult):
+    """HISTORY stream: sort, re-evaluate the same objects in place, sort again"""
+    yield dict(case(["1", "-1", "1"], [[4, 2, 4], [0, 1, 3], [1, 4, 1], [3, 0, 2], [3, 3, 0]], range(0, 7), "reeval/fixed"),
+               pre=[["1", "4", "2"], ["1", "3", "2"], ["4", "1", "3"], ["2", "3", "4"], ["4", "1", "2"]])
+    count = int((60 if tier != "thorough" else 800) * mult)
+    for it in range(count):
+        m = rng.choice([2, 2, 3, 4])
+        n = rng.choice([2, 3, 4, 5, 6, 8])
+        pop = [[rng.randrange(5) for _ in range(m)] for _ in range(n)]
+        pre = [[str(rng.randrange(5)) for _ in range(m)] for _ in range(n)]
+        yield dict(case(rand_weights(rng, m), pop, sorted(set([0, 1, n // 2, n, n + 1])), "reeval/m=%d" % m), pre=pre)
+
+
 def generate(tier, rng, mult):
+    for c in reeval_cases(tier, rng, mult):
+        yield c
     for c in constrained_cases(tier, rng, mult):
         yield c
     for c in family_cases(tier, rng, mult):
